@@ -613,7 +613,10 @@ class DiscreteFourierTransformInverse(DiscreteFourierTransformBase):
             Result of the transform
         """
         if self.halfcomplex:
-            return np.fft.irfftn(x, axes=self.axes)
+            # The output shape must be given explicitly, otherwise an odd
+            # size in the last axis cannot be recovered
+            s = np.take(self.range.shape, self.axes)
+            return np.fft.irfftn(x, s=s, axes=self.axes)
         else:
             if self.sign == '+':
                 return np.fft.ifftn(x, axes=self.axes)
